@@ -15,7 +15,8 @@ RULE = (
     "Hypothesis draws a network of 2-4 heterogeneous cells (per-compartment geometry and initial voltage), channels "
     "(HH/Leak/Na/K on drawn rows), a multiset of 1-6 synapses (IonotropicSynapse / TestSynapse / TanhRateSynapse, "
     "autapses, fan-in, fan-out, parallel edges, zero conductances) with per-edge parameters and states, a creation order "
-    "(permutation), the route by which edge parameters are assigned (select(edges=), <Type>.edge(k), <Type>.set(array)), "
+    "(permutation), the route by which edge parameters are assigned (select(edges=), <Type>.edge(k), <Type>.set(array), or each "
+    "synapse set right after its own connect() call and before the next one), "
     "0-3 stimuli, 4-12 steps, a solver and a backend. Oracles: (1) voltages of ALL compartments vs the table-driven "
     "reference simulator R3; (2) .edges equals the requested per-edge parameters; (3) the same multiset created in another "
     "order gives the same voltages and the same edge rows up to order; (4) with all conductances 0 every cell equals the "
@@ -58,7 +59,7 @@ def _spec(draw, tier):
     order2 = draw(st.permutations(list(range(len(edges)))))
     return {
         "morph": morph, "channels": chans, "edges": edges, "order": list(order), "order2": list(order2),
-        "assign": draw(st.sampled_from(["select_edges", "type_view_edge", "type_view_array"])),
+        "assign": draw(st.sampled_from(["select_edges", "type_view_edge", "type_view_array", "interleaved"])),
         "stim": stim, "nsteps": T, "dt": draw(st.sampled_from([0.025, 0.025, 0.05, 0.1])),
         "solver": draw(st.sampled_from(["bwd_euler", "bwd_euler", "crank_nicolson", "fwd_euler"])),
         "backend": draw(st.sampled_from(gn.BACKENDS)),
